@@ -14,16 +14,14 @@ use temporal_rs::*;
 fn arg_cal(v: &Value) -> TemporalResult<Calendar> {
     match v.get("cal").and_then(|c| c.as_str()) { Some(c) => Calendar::from_utf8(c.as_bytes()), None => Ok(iso()) }
 }
-/// {"prec": "auto" | 0..9, "su"?: unit name} -> ToStringRoundingOptions (rounding mode left at its default, trunc)
+/// {"prec": -1 (auto) | 0..9 digits, "su"?: unit name ("" = none)} -> ToStringRoundingOptions (rounding mode left at its default, trunc)
 fn arg_tsopts(a: &Value) -> ToStringRoundingOptions {
-    let precision = match a.get("prec") {
-        Some(Value::String(s)) if s == "auto" => Precision::Auto,
-        Some(Value::String(s)) if s == "minute" => Precision::Minute,
-        Some(Value::Number(n)) => Precision::Digit(n.as_u64().expect("digits") as u8),
-        None | Some(Value::Null) => Precision::Auto,
-        x => panic!("prec {:?}", x),
+    let precision = match a.get("prec").and_then(|x| x.as_i64()) {
+        None | Some(-1) => Precision::Auto,
+        Some(-2) => Precision::Minute,
+        Some(n) => Precision::Digit(n as u8),
     };
-    let smallest_unit = js::opt_s(a, "su").map(arg_unit);
+    let smallest_unit = js::opt_s(a, "su").filter(|s| !s.is_empty()).map(arg_unit);
     ToStringRoundingOptions { precision, smallest_unit, rounding_mode: None }
 }
 fn arg_dc(a: &Value) -> DisplayCalendar { DisplayCalendar::from_str(js::opt_s(a, "cd").unwrap_or("auto")).expect("calendar display") }
